@@ -96,6 +96,14 @@ pub struct AutoConfig {
     pub eof_after_close_ok: bool,
     /// answer Connection.Close only after this long, sending heartbeats meanwhile
     pub close_ok_delay_ms: u64,
+    /// wait this long before each handshake reply (Start, Tune, OpenOk)
+    pub step_delay_ms: u64,
+    /// wait this long (more) before OpenOk
+    pub open_ok_delay_ms: u64,
+    /// bytes sent right behind OpenOk: the first `tail_with_open_ok` of them in the same write, the
+    /// rest 300 ms later
+    pub tail: Vec<u8>,
+    pub tail_with_open_ok: usize,
     /// stop answering anything (the server goes silent) once this is set
     pub silent: Arc<AtomicBool>,
 }
@@ -133,6 +141,7 @@ pub fn auto_broker(peer: Peer, cfg: AutoConfig, stop: Arc<AtomicBool>, seen: Arc
         let (has_header, frames, _rest) = split_written(&data);
         if has_header && !sent_start && !cfg.silent.load(Ordering::SeqCst) {
             seen.lock().unwrap().header_at = Some(Instant::now());
+            std::thread::sleep(Duration::from_millis(cfg.step_delay_ms));
             peer.push(&start("PLAIN AMQPLAIN EXTERNAL", "en_US"));
             sent_start = true;
         }
@@ -146,9 +155,27 @@ pub fn auto_broker(peer: Peer, cfg: AutoConfig, stop: Arc<AtomicBool>, seen: Arc
             let cls = u16::from_be_bytes([payload[0], payload[1]]);
             let mid = u16::from_be_bytes([payload[2], payload[3]]);
             let reply: Option<Vec<u8>> = match (cls, mid) {
-                (10, 11) => Some(tune(cfg.ch_max, cfg.frame_max, cfg.heartbeat)),
+                (10, 11) => {
+                    std::thread::sleep(Duration::from_millis(cfg.step_delay_ms));
+                    Some(tune(cfg.ch_max, cfg.frame_max, cfg.heartbeat))
+                }
                 (10, 31) => None,
-                (10, 40) => Some(open_ok()),
+                (10, 40) => {
+                    std::thread::sleep(Duration::from_millis(cfg.step_delay_ms + cfg.open_ok_delay_ms));
+                    if cfg.tail.is_empty() {
+                        Some(open_ok())
+                    } else {
+                        let k = cfg.tail_with_open_ok.min(cfg.tail.len());
+                        let mut first = open_ok();
+                        first.extend_from_slice(&cfg.tail[..k]);
+                        peer.push(&first);
+                        if k < cfg.tail.len() {
+                            std::thread::sleep(Duration::from_millis(300));
+                            peer.push(&cfg.tail[k..]);
+                        }
+                        None
+                    }
+                }
                 (10, 50) => {
                     if cfg.close_ok_delay_ms > 0 {
                         close_ok_due = Some(Instant::now() + Duration::from_millis(cfg.close_ok_delay_ms));
